@@ -20,7 +20,7 @@ PROPERTY = "C35"
 LEVEL = "exploration"
 TECHNIQUE = "exhaustive frequency-set x shift-mode x order grid; exactness on the full trigonometric basis (linearity argument)"
 LEVEL_TEXT = ("Every non-empty subset of {1,2,3,4} (thorough {1..5}) plus half-integer, non-commensurate, dense and permuted frequency "
-              "sets x 4 shift modes x derivative order 1..4, and all ordered pairs (thorough: triples) for the multi-parameter rule, "
+              "sets x 6 shift modes x derivative order 1..4, and all ordered pairs (thorough: triples) for the multi-parameter rule, "
               "are evaluated; each rule is applied to the complete basis 1, cos(wx), sin(wx) (products for multi) at 4 points and "
               "compared with the analytic derivative. Exactness on the basis is exactness on every trigonometric polynomial.")
 LEVEL_NOTE = ("Reference = closed-form derivatives of sin/cos. Tolerance 1e-9 scaled by the rule's l1 norm and the conditioning of the "
@@ -34,7 +34,7 @@ RULE = ("full grid frequency set x shift mode x order (single) and ordered tuple
 SQRT2 = 1.4142135623730951
 EXTRA_SETS = [[0.5], [1.5], [0.5, 1.5], [1.5, 2.5], [0.5, 1.0, 1.5], [1, SQRT2], [0.3, 1, 2.7], [1, 2, 3, 4, 5, 6],
               [3, 1, 2], [4, 2], [2, 1], [4, 1, 3], [2.0, 4.0], [1, 2.5]]
-SHIFT_MODES = ["default", "explicit-default", "near-default", "custom"]
+SHIFT_MODES = ["default", "explicit-default", "explicit-default-reversed", "near-default", "custom", "custom-reversed"]
 CUSTOM = [0.4, 1.1, 1.9, 2.6, 0.75, 2.2]
 POINTS = [0.0, 0.37, math.pi, -1.21]
 MULTI_SETS = [[1], [2], [1, 2], [1, 2, 3], [1, 3, 4], [0.5, 1.0, 1.5], [2, 3], [1, SQRT2]]
@@ -55,6 +55,10 @@ def shifts_for(freqs, mode):
         return None, d
     if mode == "explicit-default":
         return tuple(d), d
+    if mode == "explicit-default-reversed":  # the same shift set handed over in descending order (order must not matter)
+        return tuple(reversed(d)), d
+    if mode == "custom-reversed":
+        return tuple(reversed(CUSTOM[: len(freqs)])), CUSTOM[: len(freqs)]
     if mode == "near-default":
         s = list(d)
         s[-1] += 1e-3
@@ -68,7 +72,7 @@ def classify(freqs, mode):
     diffs = {round(b - a, 10) for a, b in zip(fs, fs[1:])}
     equidistant_spacing = len(diffs) <= 1
     harmonic = all(abs(f - fs[0] * (i + 1)) < 1e-9 for i, f in enumerate(fs))
-    if equidistant_spacing and mode in ("default", "explicit-default"):
+    if equidistant_spacing and mode in ("default", "explicit-default", "explicit-default-reversed"):
         return "closed-form" if harmonic else "closed-form-on-non-harmonic-spectrum"
     return "linear-solve"
 
